@@ -89,6 +89,31 @@ def make_tracer_factory(case, ice):
     return lambda x, y: LayeredRayTracer(x, y, ice)
 
 
+def turn_depth_error(ice, *zs):
+    """Round-trip error of the real inverse profile, |depth_with_index(index(z)) - z|, at the given depths (m)."""
+    try:
+        return float(max(abs(float(ice.depth_with_index(ice.index(float(z)))) - float(z)) for z in zs))
+    except Exception:       # noqa: BLE001
+        return float("nan")
+
+
+def on_beta_window(*paths):
+    """True when a gradient-index sub-path of a multi-leg layered solution sits inside its declared beta_tolerance window
+    (|beta| <= 1.05 beta_tolerance), where the sub-layer is treated as exactly vertical."""
+    for p in paths:
+        subs = getattr(p, "paths", None)
+        if not subs or len(subs) < 2:
+            continue
+        for sp in subs:
+            if hasattr(sp, "beta") and hasattr(sp, "beta_tolerance"):
+                try:
+                    if abs(float(sp.beta)) <= 1.05 * float(sp.beta_tolerance):
+                        return True
+                except Exception:       # noqa: BLE001
+                    pass
+    return False
+
+
 def describe(tracer):
     out = {"exists": None, "paths": None, "error": None}
     try:
@@ -126,6 +151,9 @@ def run_case(case):
         n0, k_, a_ = float(ice.n0), float(ice.k), float(ice.a)
         nf = lambda z: n0 - k_ * np.exp(a_ * z)
         geo.update(ice=[n0, k_, a_], sat0=bool(n0 - nf(a[2]) < 32 * EPS * n0), sat1=bool(n0 - nf(b[2]) < 32 * EPS * n0))
+        if fam == "basic":
+            # observables of two mechanisms of the numeric tracer, measured on the real ice model / tracer
+            geo.update(dz=1.0, z_turn_proximity=float(getattr(make(a, b), "z_turn_proximity", float("nan"))), turn_depth_error=turn_depth_error(ice, a[2], b[2]))
     d1 = describe(make(a, b))
     d2 = describe(make(b, a))
     d3 = describe(make(R @ a + sh, R @ b + sh))
@@ -188,7 +216,7 @@ def run_case(case):
     # ---- translation + rotation: same order of solutions
     for j, (p, w) in enumerate(zip(s1, s3)):
         L = float(p.path_length)
-        det = dict(geo, solution=j, L=L, cancellation_bound_m=canc(p))
+        det = dict(geo, solution=j, L=L, cancellation_bound_m=canc(p), beta_window=on_beta_window(p, w))
         v.close("translated/rotated: equal path length", abs(p.path_length - w.path_length) / L, gtol, **det)
         v.close("translated/rotated: equal time of flight", abs(p.tof - w.tof) / p.tof, gtol, **det)
         v.close("translated/rotated: horizontal direction components move with the geometry, vertical ones unchanged",
@@ -202,7 +230,7 @@ def run_case(case):
         used.add(i)
         q = s2[i]
         L = float(p.path_length)
-        det = dict(geo, solution=j, L=L, cancellation_bound_m=canc(p))
+        det = dict(geo, solution=j, L=L, cancellation_bound_m=canc(p), beta_window=on_beta_window(p, q))
         v.close("swapped: equal path length", abs(p.path_length - q.path_length) / L, gtol, **det)
         v.close("swapped: equal time of flight", abs(p.tof - q.tof) / p.tof, gtol, **det)
         v.close("swapped: emitted/received directions exchanged and reversed",
@@ -245,6 +273,30 @@ def kf_horizontal(case, viol):
 def kf_basic_max_angle_nan(case, viol):
     d = viol["detail"]
     return d.get("family") == "basic" and viol["clause"].startswith("tracer reports solutions or none") and "NaN" in str(d.get("error", "")) and not (d.get("sat0") and d.get("sat1"))
+
+
+def kf_basic_turning_depth_unresolved(case, viol):
+    """Numeric tracer, deep endpoints: the real depth_with_index(index(z)) misses z by more than the distance
+    (z_turn_proximity) at which the numeric integrals stop short of the turning point, so the limits of the second leg are
+    inverted, the r-function is negative at the end of the root bracket and brentq raises."""
+    d = viol["detail"]
+    return (d.get("family") == "basic" and viol["clause"].startswith("tracer reports solutions or none") and "different signs" in str(d.get("error", ""))
+            and d.get("turn_depth_error", 0.0) > d.get("z_turn_proximity", float("inf")))
+
+
+def kf_basic_leg_shorter_than_step(case, viol):
+    """Numeric tracer: z_integral uses int(|dz_leg| / dz) trapezoid intervals, which is zero for a leg spanning less than one
+    step in depth: path length, time of flight (and attenuation exponent) of such a solution are exactly 0."""
+    d = viol["detail"]
+    return (d.get("family") == "basic" and "from" in d and abs(d["from"][2] - d["to"][2]) < d.get("dz", 0.0) and d.get("L") == 0.0
+            and viol["clause"].endswith(("equal path length", "equal time of flight", "equal attenuation")))
+
+
+def kf_near_vertical_multileg_snell(case, viol):
+    """see KF-C18-near-vertical-multileg-snell: a gradient sub-layer of a multi-leg layered solution sits on the
+    beta_tolerance discontinuity in one of the two compared executions; the remaining legs absorb the horizontal mismatch."""
+    d = viol["detail"]
+    return d.get("family") == "layered-exp" and d.get("beta_window") is True and viol["clause"].startswith(("swapped: e", "translated/rotated: e", "translated/rotated: horizontal"))
 
 
 def kf_cancellation(case, viol):
